@@ -137,12 +137,21 @@ impl Clone for Tal {
     }
 }
 
-/// Wide, oddly sized component with a redundant field.
+/// Wide (about 0.8 KB), oddly sized component with redundant fields: block-wise copies, size-class
+/// dependent reallocation and partial copies show up as a corrupt blob.
 pub struct Tw {
     pub id: u64,
     pub p: i64,
     pub wide: u128,
+    pub blob: [u64; 96],
     pub pad: [u8; 7],
+}
+fn blob_of(id: u64, p: i64) -> [u64; 96] {
+    let mut b = [0u64; 96];
+    for (i, x) in b.iter_mut().enumerate() {
+        *x = id.wrapping_mul(0x9E37_79B9_7F4A_7C15).wrapping_add(p as u64).rotate_left(i as u32 % 63) ^ i as u64;
+    }
+    b
 }
 fn wide_of(id: u64, p: i64) -> u128 {
     ((id as u128) << 64) ^ (p as u64 as u128) ^ 0x5a5a_5a5a_5a5a_5a5a_a5a5_a5a5_a5a5_a5a5
@@ -151,7 +160,7 @@ impl Comp for Tw {
     const NAME: &'static str = "Tw";
     fn new(p: i64) -> Self {
         let id = reg::born();
-        Self { id, p, wide: wide_of(id, p), pad: [0xAB; 7] }
+        Self { id, p, wide: wide_of(id, p), blob: blob_of(id, p), pad: [0xAB; 7] }
     }
     fn val(&self) -> Val {
         reg::check_live(self.id);
@@ -160,9 +169,10 @@ impl Comp for Tw {
     fn set(&mut self, p: i64) {
         self.p = p;
         self.wide = wide_of(self.id, p);
+        self.blob = blob_of(self.id, p);
     }
     fn check(&self) {
-        if self.wide != wide_of(self.id, self.p) || self.pad != [0xAB; 7] {
+        if self.wide != wide_of(self.id, self.p) || self.pad != [0xAB; 7] || self.blob != blob_of(self.id, self.p) {
             reg::with(|r| r.anomalies.push(format!("corrupt_Tw:{}", self.id)));
         }
     }
@@ -175,7 +185,7 @@ impl Drop for Tw {
 impl Clone for Tw {
     fn clone(&self) -> Self {
         let id = reg::cloned(self.id);
-        Self { id, p: self.p, wide: wide_of(id, self.p), pad: self.pad }
+        Self { id, p: self.p, wide: wide_of(id, self.p), blob: blob_of(id, self.p), pad: self.pad }
     }
 }
 
